@@ -643,3 +643,11 @@ End WaitFor.
 (** the wrappers ([Detached], the [AsyncIterator] trait) only pass these calls on to the wrapped iterator *)
 Theorem pass_through_closed : forallb (fun x => snd x) DataFns.pass_through = true.
 Proof. reflexivity. Qed.
+
+(** ** wiring: which published index each iterator follows and which one it publishes to, as written in the source *)
+Theorem tie_wiring k s : succ_idx k s = tget (g_succ k (hasW s)) (pub s) /\ g_pub k = k.
+Proof. unfold succ_idx, g_succ, g_pub. destruct k; split; try reflexivity. destruct (hasW s); reflexivity. Qed.
+
+(** and so a publication of the Model ([set_pub k]) is the store the source performs, the successor read by [fresh] the load it performs *)
+Corollary wiring_set_pub k i s : set_pub k i s = set_pub (g_pub k) i s.
+Proof. destruct (tie_wiring k s) as [_ H]. rewrite H. reflexivity. Qed.
